@@ -16,7 +16,7 @@ from fractions import Fraction
 import z3
 
 from . import rt
-from .contract import ModelEv, RandomEv, Shared
+from .contract import ModelEv, RandomEv, Shared, Const
 from .replay import module_name, rewrite_old
 from .values import (SNum, SBool, SBV, SRec, SObj, SList, SOpaque, Raised, EngineError)
 
@@ -217,6 +217,26 @@ def cross_check(task_factory, seed, want=3):
     """returns dict(witnesses, checked, mismatches:[...], clause_failures:[...])"""
     task = task_factory()
     res = {'witnesses': 0, 'checked': 0, 'mismatches': [], 'clause_failures': [], 'skipped': None}
+    if task.c.witnesses:
+        # explicit native witnesses (objects produced by the real constructors / initialisers): the precondition
+        # must hold on them natively and the real function must run to completion
+        ns = native_namespace(task)
+        for w in task.c.witnesses:
+            try:
+                args = w(ns)
+                if task.inst and any(isinstance(sh, Const) and n in args and args[n] != sh.v
+                                     for n, sh in task.inst.items() if hasattr(sh, 'v')):
+                    continue
+                if not requires_ok(task, args, ns):
+                    res['clause_failures'].append({'clause': 'requires', 'inputs': 'explicit witness'})
+                    continue
+                kind, val = native_run(task, args, ns, seconds=30)
+                res['witnesses'] += 1
+            except NativeTimeout:
+                continue
+            except Exception as e:  # noqa
+                res['skipped'] = f'explicit witness failed: {type(e).__name__}: {e}'
+        return res
     try:
         evs, ns = find_witnesses(task, seed, want)
     except Exception as e:  # noqa
